@@ -102,6 +102,52 @@ CLAIMED.update({
         design='§5 C16'),
 })
 
+CLAIMED.update({
+    'C07': dict(
+        text='Lean state machine of the object model (registries, copy numbers, origin numbering/back-filling). Theorems: '
+             'copy_unique_reachable (in every reachable state, same-named objects of one set have distinct copy '
+             'numbers), reference_bytes/objref_bytes (a reference is written as, and decodes to, the target\'s '
+             'identity), origin_backfilled, logical_files_isolated. Tie: histories of add_* calls (valid/rejected, '
+             'interleaved over logical files) on the real API vs the state machine; oracle: unique identities, origin '
+             'fields and reference resolution in the decoded files (history and whole-file streams).',
+        note='PARTIAL vs the statement: uniqueness is proved per set, which is what the code implements; uniqueness per '
+             'set TYPE fails for same-named objects in differently named sets (KNOWN FINDING). References are only '
+             'class-checked by the code: that the target lies in the same logical file is checked by the oracle on '
+             'generated (valid) graphs, not proved.',
+        technique='Lean 4 proof (invariant by induction over operation histories) + history correspondence + file oracle',
+        design='§5 C07'),
+    'C09': dict(
+        text='Theorem generator_shape: per logical file the records are header, ORIGIN sets, all other sets (each '
+             '(type,name) once, none empty), no-format records, frame data; header_fields (10/65 justified), '
+             'defining_origin_first. Tie: history correspondence of the emitted set records + oracle on decoded files '
+             '(first record FILE-HEADER with one object and the user\'s fields, then ORIGIN with FILE-ID = header id and '
+             'FILE-SET-NUMBER, no duplicate/empty sets, EFLRs before IFLRs).',
+        note='Order among the non-origin sets follows class first-touch order in the code; it is not mandated and the '
+             'correspondence compares it modulo the position of the ORIGIN class.',
+        technique='Lean 4 proof (shape of the generator output over all reachable states) + correspondence + file oracle',
+        design='§5 C09'),
+    'C18': dict(
+        text='Theorems logical_files_isolated (in every reachable writable state each set record of a logical file holds '
+             'exactly the objects added through it), shared_set_rejected (a non-empty set reachable from two logical '
+             'files makes the state unwritable), frames_independent. Tie: history correspondence incl. writability; '
+             'oracle: per-logical-file inventory of the decoded file = objects added to it.',
+        note='Per-frame row isolation is C03 applied per frame; multi-frame/multi-logical-file files are in the C03/C05 '
+             'whole-file streams.',
+        technique='Lean 4 proof (invariant + decision logic) + history correspondence + file oracle',
+        design='§5 C18'),
+    'C20': dict(
+        text='Theorems rejected_leaves_objects, later_copy_numbers_unaffected, records_unchanged_item/origin: a rejected '
+             'add_* call (before or after registration) changes no object, origin, copy number or header origin, and '
+             'the records written afterwards are unchanged. Tie: history correspondence with rejected calls of both '
+             'kinds; oracle: the file of a history equals (content-wise) the file of the same history without the '
+             'rejected calls, and writability is the same.',
+        note='PARTIAL: multi-step simulation (effect of the leftover empty set on later set order / defaults) and the '
+             'failed-write half (values derived at write time persist: known D6 family) are oracle-only. KNOWN FINDING: '
+             'rejected call naming another logical file\'s set.',
+        technique='Lean 4 proof (rejected step is a no-op on observable state) + history correspondence + differential oracle',
+        design='§5 C20'),
+})
+
 PENDING_REASON = 'check not built yet in this revision (model layer under construction); see DESIGN.md §12 build order'
 
 
